@@ -39,6 +39,8 @@ def comp : Component where
           if s1.blocked ∧ passed s1 then ({ s1 with blocked := false }, "r=timeout")
           else (s1, if s1.blocked then "blocked" else "-")
       ({ s2 with c := c' }, line4 (resStr r) "-" spec (tags ++ (match r with | .timeout => "timeout " | .data => "data " | .blocked => "blocked " | .none => "")))
+    -- `dlb` is SetDeadline: for the read side it is SetReadDeadline
+    let f := match f with | "dlb" :: rest => "dl" :: rest | _ => f
     match f with
     | ["dl", "zero"] => fin (.setDeadline none) { s with dl := none } ("dl-zero " ++ (if passed s then "reset-after-expiry " else ""))
     | ["dl", t] => fin (.setDeadline (some (int! t))) { s with dl := some (int! t) }
